@@ -3,8 +3,17 @@
 // 1-4 byte string against a guard page.
 #include "../engine/vp_enum.hpp"
 
+#include "tmpdir.hpp"
+
+#include <osmium/builder/osm_object_builder.hpp>
 #include <osmium/io/detail/opl_parser_functions.hpp>
 #include <osmium/io/detail/string_util.hpp>
+#include <osmium/io/opl_input.hpp>
+#include <osmium/io/opl_output.hpp>
+#include <osmium/io/reader.hpp>
+#include <osmium/io/writer.hpp>
+#include <osmium/io/xml_input.hpp>
+#include <osmium/io/xml_output.hpp>
 
 #include <expat.h>
 
@@ -243,6 +252,158 @@ static void check_mem(uint64_t idx, vp::Local& L) {
     }
 }
 
+// ---- the writers themselves: every string position of the XML and OPL output formats, read back by the library's parsers
+// index -> string: the structural strings of length <= 4, then every scalar (between two letters), then long strings
+static uint64_t n_writer_strings(bool xml) { return n_strings_upto((xml ? XML_ALPHA : OPL_ALPHA).size(), 4) + N_SCALARS + 4000; }
+static bool writer_string(bool xml, uint64_t idx, std::string& out) {
+    const uint64_t ns = n_strings_upto((xml ? XML_ALPHA : OPL_ALPHA).size(), 4);
+    if (idx < ns) {
+        out = nth_string(xml ? XML_ALPHA : OPL_ALPHA, idx);
+        return true;
+    }
+    idx -= ns;
+    if (idx < N_SCALARS) {
+        const uint32_t cp = scalar(idx);
+        if (xml && !is_xml_char(cp)) return false;  // cannot be written in XML 1.0 at all
+        out = (idx % 3 == 0 ? "" : "a") + utf8(cp) + (idx % 3 == 1 ? "" : "b");
+        return true;
+    }
+    out = long_string(idx - N_SCALARS, xml);
+    if (out.size() > 1000) out.resize(0);  // (tag keys, values, roles and user names: the readers limit strings to 256 characters)
+    size_t chars = 0;
+    for (unsigned char c : out) chars += (c & 0xc0) != 0x80;
+    return !out.empty() && chars <= 255;
+}
+constexpr uint64_t WRITER_BATCH = 200;
+static void check_writers(bool xml, uint64_t batch, vp::Local& L, bool f16_open) {
+    std::vector<std::string> strs;
+    for (uint64_t i = batch * WRITER_BATCH; i < (batch + 1) * WRITER_BATCH && i < n_writer_strings(xml); ++i) {
+        std::string t;
+        if (!writer_string(xml, i, t)) continue;
+        if (!xml && f16_open && t.find("\xf4") != std::string::npos) continue;
+        strs.push_back(std::move(t));
+    }
+    if (strs.empty()) return;
+    using namespace osmium::builder;
+    osmium::memory::Buffer buf{1024 * 64, osmium::memory::Buffer::auto_grow::yes};
+    for (size_t i = 0; i < strs.size(); ++i) {
+        NodeBuilder b{buf};
+        b.set_id(static_cast<osmium::object_id_type>(i + 1)).set_version(1).set_uid(7).set_timestamp(osmium::Timestamp{uint32_t(1000)}).set_changeset(3).set_location(osmium::Location{1, 2});
+        b.set_user(strs[i].c_str());
+        {
+            TagListBuilder tl{b};
+            tl.add_tag("k", strs[i]);
+            tl.add_tag(strs[i], "v");
+            tl.add_tag(strs[i] + "x", strs[i]);
+        }
+    }
+    buf.commit();
+    for (size_t i = 0; i < strs.size(); ++i) {
+        {
+            RelationBuilder b{buf};
+            b.set_id(static_cast<osmium::object_id_type>(i + 1)).set_version(1);
+            b.set_user("");
+            {
+                RelationMemberListBuilder ml{b};
+                ml.add_member(osmium::item_type::node, 1, strs[i].c_str());
+                ml.add_member(osmium::item_type::way, 2, "plain");
+                ml.add_member(osmium::item_type::relation, 3, strs[i].c_str());
+            }
+        }
+        buf.commit();
+    }
+    for (size_t i = 0; i < strs.size(); ++i) {
+        {
+            ChangesetBuilder b{buf};
+            b.set_id(static_cast<osmium::changeset_id_type>(i + 1)).set_uid(9).set_created_at(osmium::Timestamp{uint32_t(1000)}).set_closed_at(osmium::Timestamp{uint32_t(2000)});
+            if (xml) b.set_num_comments(1);
+            b.set_user(strs[i].c_str());
+            {
+                TagListBuilder tl{b};
+                tl.add_tag(strs[i], strs[i]);
+            }
+            if (xml) {
+                ChangesetDiscussionBuilder d{b};
+                d.add_comment(osmium::Timestamp{uint32_t(1500)}, 11, strs[i].c_str());
+                d.add_comment_text(strs[i]);
+            }
+        }
+        buf.commit();
+    }
+    static std::atomic<unsigned> counter{0};
+    static thread_local const std::string path = tmpdir::prefix() + "c14-" + std::to_string(getpid()) + "-" + std::to_string(counter++);
+    const char* fmt = xml ? "osm" : "opl";
+    {
+        osmium::io::Writer w{osmium::io::File{path, fmt}, osmium::io::overwrite::allow};
+        w(std::move(buf));
+        w.close();
+    }
+    struct Unlink {
+        const std::string& p;
+        ~Unlink() { ::unlink(p.c_str()); }
+    } unl{path};
+    size_t nodes = 0, rels = 0, csets = 0;
+    auto differ = [&](const char* where, size_t i, const char* got) {
+        if (strs[i] != got) vp::fail(xml ? "xml-writer-roundtrip" : "opl-writer-roundtrip", std::string{"string hex:"} + hex(strs[i]) + " written as " + where + " by the " + fmt + " writer is read back as hex:" + hex(got));
+    };
+    try {
+        osmium::io::Reader r{osmium::io::File{path, fmt}, osmium::osm_entity_bits::all};
+        while (osmium::memory::Buffer b = r.read()) {
+            for (const auto& item : b) {
+                if (item.type() == osmium::item_type::node) {
+                    const auto& n = static_cast<const osmium::Node&>(item);
+                    const size_t i = static_cast<size_t>(n.id() - 1);
+                    VP_CHECK(i == nodes && i < strs.size(), "writer-roundtrip", "node ids out of step");
+                    ++nodes;
+                    differ("user name", i, n.user());
+                    VP_CHECK(n.tags().size() == 3, "writer-roundtrip", "node " << n.id() << " has " << n.tags().size() << " tags, 3 were written (string hex:" << hex(strs[i]) << ")");
+                    auto t = n.tags().begin();
+                    differ("tag value", i, t->value());
+                    ++t;
+                    differ("tag key", i, t->key());
+                    ++t;
+                    differ("tag key (followed by a letter)", i, std::string(t->key(), std::strlen(t->key()) ? std::strlen(t->key()) - 1 : 0).c_str());
+                    differ("tag value (after its key)", i, t->value());
+                } else if (item.type() == osmium::item_type::relation) {
+                    const auto& rel = static_cast<const osmium::Relation&>(item);
+                    const size_t i = static_cast<size_t>(rel.id() - 1);
+                    VP_CHECK(i == rels && i < strs.size(), "writer-roundtrip", "relation ids out of step");
+                    ++rels;
+                    VP_CHECK(rel.members().size() == 3, "writer-roundtrip", "relation " << rel.id() << " has " << rel.members().size() << " members, 3 were written (role hex:" << hex(strs[i]) << ")");
+                    auto m = rel.members().begin();
+                    differ("member role", i, m->role());
+                    ++m;
+                    VP_CHECK(std::string{m->role()} == "plain", "writer-roundtrip", "second member role changed");
+                    ++m;
+                    differ("role of the last member", i, m->role());
+                } else if (item.type() == osmium::item_type::changeset) {
+                    const auto& cs = static_cast<const osmium::Changeset&>(item);
+                    const size_t i = static_cast<size_t>(cs.id() - 1);
+                    VP_CHECK(i == csets && i < strs.size(), "writer-roundtrip", "changeset ids out of step");
+                    ++csets;
+                    differ("changeset user name", i, cs.user());
+                    VP_CHECK(cs.tags().size() == 1, "writer-roundtrip", "changeset " << cs.id() << " has " << cs.tags().size() << " tags");
+                    differ("changeset tag key", i, cs.tags().begin()->key());
+                    differ("changeset tag value", i, cs.tags().begin()->value());
+                    if (xml) {
+                        VP_CHECK(cs.discussion().size() == 1, "writer-roundtrip", "changeset " << cs.id() << " has " << cs.discussion().size() << " comments");
+                        differ("comment user name", i, cs.discussion().begin()->user());
+                        differ("comment text", i, cs.discussion().begin()->text());
+                    }
+                }
+            }
+        }
+        r.close();
+    } catch (const vp::Fail&) {
+        throw;
+    } catch (const std::exception& e) {
+        vp::fail(xml ? "xml-writer-roundtrip" : "opl-writer-roundtrip", std::string{"the file written by the "} + fmt + " writer is rejected by the reader: " + e.what() + " (batch starts with string hex:" + hex(strs[0]) + ")");
+    }
+    VP_CHECK(nodes == strs.size() && rels == strs.size() && csets == strs.size(), "writer-roundtrip", "read back " << nodes << " nodes, " << rels << " relations, " << csets << " changesets of " << strs.size() << " each");
+    L.nontrivial += strs.size();
+    L.count("strings_through_the_writer", strs.size());
+}
+
 int main(int argc, char** argv) {
     vp::parse_args(argc, argv);
     const bool f16_open = vp::known_open("F16");
@@ -333,6 +494,21 @@ int main(int argc, char** argv) {
         };
         s.show = [](uint64_t i) { return "hex:" + hex(long_string(i, false)).substr(0, 200); };
         s.block = 256;
+        subs.push_back(s);
+    }
+    for (const bool xml : {true, false}) {
+        vp::Sub s;
+        s.name = xml ? "xml_writer" : "opl_writer";
+        s.domain = (n_writer_strings(xml) + WRITER_BATCH - 1) / WRITER_BATCH;
+        s.quick_stride = 5;
+        // all structural strings in both tiers
+        for (uint64_t b = 0; b * WRITER_BATCH < n_strings_upto((xml ? XML_ALPHA : OPL_ALPHA).size(), 4) + 3000; ++b) s.always.push_back(b);
+        s.fn = [xml, f16_open](uint64_t i, vp::Local& L) { check_writers(xml, i, L, f16_open); };
+        s.show = [xml](uint64_t i) {
+            std::string t;
+            return std::string{"batch of "} + std::to_string(WRITER_BATCH) + " strings starting at #" + std::to_string(i * WRITER_BATCH) + (writer_string(xml, i * WRITER_BATCH, t) ? " (hex:" + hex(t).substr(0, 40) + ")" : "");
+        };
+        s.block = 4;
         subs.push_back(s);
     }
     {
